@@ -180,6 +180,30 @@ func canonical(e *env) {
 		{"#cfg 4 100", fmt.Sprintf("cput 1 %s %s %s", b.hash, size, hexs(b.data)), fmt.Sprintf("cget 1 %s %s", b.hash, size)},
 		{"#cfg 16 100", "store " + sha([]byte{7}) + " 1 07", "cget 1 " + sha([]byte{7}) + " 1"},
 	}
+	// a streaming backend whose medium fails after k bytes, for every k; and stored
+	// objects that do not match their digest (too short, too long, same length)
+	obj := mkBlob([]byte("0123456789"))
+	reads := func() []string {
+		var l []string
+		for _, kind := range []string{"id", "zstd"} {
+			for _, off := range []int{0, 4, 10} {
+				l = append(l, fmt.Sprintf("read %s %s 10 %d 0 0", kind, obj.hash, off))
+			}
+		}
+		return l
+	}
+	for k := 0; k <= 11; k++ {
+		for _, piece := range []int{3, 64} {
+			c := append([]string{"#cfg 4 100", storeLine(obj), fmt.Sprintf("getmode stream %d %d 14", piece, k)}, reads()...)
+			cases = append(cases, c)
+		}
+	}
+	for _, bad := range []string{"012345678", "01234567890", "012345678X", ""} {
+		for _, mode := range []string{"getmode slice", "getmode stream 3 - 14", "getmode stream 64 - 14"} {
+			c := append([]string{"#cfg 4 100", fmt.Sprintf("store %s 10 %s", obj.hash, hexs([]byte(bad))), mode}, reads()...)
+			cases = append(cases, c)
+		}
+	}
 	for i, c := range cases {
 		e.handle(fmt.Sprintf("canonical/%d", i), c, "canonical")
 	}
